@@ -809,6 +809,7 @@ GCVARS_TRIAGED = {
     ("sexp_read_string", "res", "U"): "res is tested with sexp_fixnump before the later calls: an immediate on that path",
     ("sexp_read_number", "(nested result)", "N"): "polar literal with a ratio magnitude: tried under every:1/2/3 (1/3@2, 7/2@1/2), no failure; sexp_to_double reads its argument before it can allocate",
     ("sexp_write_simple_object", "x", "A"): "exception returned by a failing custom type writer, printed at once: error path, not reproduced",
+    ("sexp_read_raw_depth", "tmp2", "A"): "(same site: sexp_read_raw became sexp_read_raw_depth when /repo fix 'bound the nesting depth of the reader' threaded a depth counter through it) irritant of the `expected closing brace` reader error of #{...} literals, which the default reader rejects earlier: not reachable in the default configuration",
     ("sexp_read_raw", "tmp2", "A"): "irritant of the `expected closing brace` reader error of #{...} literals, which the default reader rejects earlier: not reachable in the default configuration",
 }
 
@@ -929,14 +930,14 @@ def run(ctx):
     t5 = time.time()
     rs = lambda: ctx.rng.randrange(1, 100000)
     if ctx.thorough:
-        tscheds = [("every:1", True, "seed:%d:25" % rs()), ("every:2", False, "seed:%d:9" % rs()), ("every:3", True, None), ("seed:%d:3" % rs(), False, "seed:%d:60" % rs())]
+        tscheds = [("every:1", True, "seed:%d:25" % rs()), ("every:%d" % ctx.rng.choice([2, 3]), False, "seed:%d:9" % rs()), ("seed:%d:3" % rs(), False, "seed:%d:60" % rs())]
     else:
         tscheds = [("every:%d" % ctx.rng.choice([17, 19, 23]), False, "seed:%d:%d" % (rs(), ctx.rng.choice([7, 30, 120])))]
     nt = outer_libs(ctx, da, tscheds, srcname="c02_threads.scm", tag="threads", more_env={"CHIBI_VERIF_SCHED_CLOCK": "1000"})
     t6 = time.time()
     ctx.note("green-thread programs under dense forced collections: %d runs %.0fs" % (nt, t6 - t5))
     if ctx.thorough:
-        ne = outer_errors(ctx, da, None, [("every:1", 0, False), ("every:2", 1, True), ("seed:%d:3" % rs(), 0, False)])
+        ne = outer_errors(ctx, da, None, [("every:1", 0, False), ("every:2", 1, True)])
     else:
         ne = outer_errors(ctx, da, 8, [("every:1", 0, False)])
     t7 = time.time()
